@@ -460,10 +460,11 @@ def run(spec, ctx):
         n = nt = 0
         for b in control_frames():
             fails, want = check_decode(b)
+            ctx.trail.append(b)
             n += 1
             nt += 1 if len(b) >= 2 else 0
             for s, m in fails:
-                ctx.fail(dict(k="dec", b=b.hex()), s, m)
+                ctx.fail(dict(k="dec", b=b.hex()), s, m, trail_case=lambda x: dict(k="dec", b=x.hex()))
         ctx.bulk(n, nt, "dec:control", dict(k="dec", b="01a8004d020d1285123412"))
         ctx.mark_exhaustive("all 256 control octets x every prefix; all 256 version octets")
     elif kind == "strings":
@@ -477,11 +478,12 @@ def run(spec, ctx):
             space = itertools.chain([b""], (bytes(t) for ln in range(1, L + 1) for t in itertools.product(range(256), repeat=ln)))
         for b in space:
             fails, want = check_decode(b)
+            ctx.trail.append(b)
             n += 1
             if len(b) >= 2 and b[0] == 1:
                 nt += 1
             for s, m in fails:
-                ctx.fail(dict(k="dec", b=b.hex()), s, m)
+                ctx.fail(dict(k="dec", b=b.hex()), s, m, trail_case=lambda x: dict(k="dec", b=x.hex()))
         ctx.bulk(n, nt, "dec:short", dict(k="dec", b="0120"))
         ctx.mark_exhaustive("all octet strings of length %s" % ("3 (slice)" if "first_hi" in spec else "<= %d" % L))
     elif kind == "msg":
